@@ -74,7 +74,10 @@ func H_C20_injector() {
 		maxAnn, maxEl = 3, 3
 	}
 	ctrName := nondetString()
-	n := 1 + choose(maxAnn)
+	n := maxAnn
+	if instance() == 1 {
+		n = 1 + choose(maxAnn)
+	}
 	keys := make([]string, n)
 	vals := []string{"payload-0", "payload-1", "payload-2"}[:n]
 	ann := map[string]string{}
@@ -83,22 +86,33 @@ func H_C20_injector() {
 		for j := 0; j < i; j++ {
 			assume(keys[i] != keys[j])
 		}
+		// a present but empty annotation still is the most specific one (decided lazily by the solver)
+		vals[i] = ifStr(nondetBool(), "", vals[i])
 		ann[keys[i]] = vals[i]
 	}
 	pod := &api.PodSandbox{Name: "pod", Annotations: ann}
 	ctr := &api.Container{Name: ctrName}
 	y := &yamlEnv{}
 	yenv = y
-	nd := choose(maxEl)
+	nd := maxEl - 1
+	if instance() == 1 {
+		nd = choose(maxEl)
+	}
 	for i := 0; i < nd; i++ {
 		y.devs = append(y.devs, device{Path: nondetString(), Type: nondetString(), Major: nondetInt64(), Minor: nondetInt64(),
 			FileMode: nondetUint32(), UID: nondetUint32(), GID: nondetUint32()})
 	}
-	nc := choose(maxEl)
+	nc := maxEl - 1
+	if instance() == 1 {
+		nc = choose(maxEl)
+	}
 	for i := 0; i < nc; i++ {
 		y.cdis = append(y.cdis, nondetString())
 	}
-	nm := choose(maxEl)
+	nm := maxEl - 1
+	if instance() == 1 {
+		nm = choose(maxEl)
+	}
 	for i := 0; i < nm; i++ {
 		y.mnts = append(y.mnts, mount{Source: nondetString(), Destination: nondetString(), Type: nondetString(), Options: []string{nondetString()}})
 	}
